@@ -208,6 +208,31 @@ class _:
         FT = TT.full()
         if tuple(FT.shape) != shp or not same(FT.data, expT, 1e-12):
             raise Fail("ttensor.full", f"{case}")
+        # a conversion describes the object as it is now, also when it was converted before and changed since
+        F.data[(0,) * N] += 100.0        # the earlier result belongs to the caller
+        K.factor_matrices[0][0, 0] += 3.0
+        K.weights[R - 1] -= 1.5
+        U2 = [np.array(f, dtype=float) for f in K.factor_matrices]
+        w2 = np.array(K.weights, dtype=float)
+        exp2 = np.zeros(shp)
+        for idx in all_subs(shp):
+            exp2[idx] = sum(w2[r] * np.prod([U2[m][idx[m], r] for m in range(N)]) for r in range(R))
+        if not same(K.full().data, exp2, 1e-12) or not same(K.double(), exp2, 1e-12):
+            raise Fail("ktensor.full:after-in-place-change", f"{case}")
+        K = ttb.ktensor([u.copy() for u in U], w.copy())
+        FT.data[(0,) * N] -= 100.0
+        TT.core[(0,) * N] = float(G[(0,) * N]) + 7.0
+        TT.factor_matrices[N - 1][0, 0] -= 2.0
+        G2 = np.array(TT.core.data, dtype=float)
+        V2 = [np.array(f, dtype=float) for f in TT.factor_matrices]
+        expT2 = np.zeros(shp)
+        for idx in all_subs(shp):
+            expT2[idx] = sum(G2[j] * np.prod([V2[m][idx[m], j[m]] for m in range(N)]) for j in all_subs(tuple(ranks)))
+        for nm, got in (("full", TT.full().data), ("double", TT.double()), ("to_tensor", TT.to_tensor().data)):
+            if not same(np.asarray(got), expT2, 1e-12):
+                raise Fail(f"ttensor.{nm}:after-in-place-change", f"{case}")
+        if abs(TT.norm() - np.linalg.norm(expT2.ravel())) > 1e-9 * max(1.0, np.linalg.norm(expT2.ravel())):
+            raise Fail("ttensor.norm:after-in-place-change", f"{case}")
         # sum tensor of (dense, sparse, ktensor)
         D = rs.randint(-2, 3, size=shp).astype(float)
         Sp = ttb.tensor(np.where(rs.rand(*shp) < 0.5, 1.0, 0.0)).to_sptensor()
